@@ -182,7 +182,7 @@ func main() {
 	out := lib.NewOut("C25", f)
 	out.Imports = "From Verif Require Import Model.PluginMsg.\n"
 	out.Rule = "one HandlePacket call per case; handler uniform over the four; message kind register 34% / unregister 12% / brand 8% / BungeeCord 5% / custom 41% with mixed-case ASCII channel names; register bodies are NUL-separated lists over 15 item shapes (valid, no namespace, leading colon, upper case, two colons, empty, FML|HS, non-ASCII), empty bodies, 32766/32767/32768-byte bodies, 1023/1024/1025 channels, existing channel count 0 or 1019..1024 with lists sized to land on 1023/1024/1025 in total; server connection present/has conn/PLAY state/write result/closed/phase, in-flight connection, client phase, registrar membership, subscriber decision (default/allow/deny), config readiness drawn independently; distinct = distinct Coq term; non-trivial = an event fired, a write happened or the message was queued"
-	n := f.Count(520)
+	n := f.Count(480)
 	for i := 0; i < n; i++ {
 		r := rng.Fork()
 		c := gen(r)
